@@ -59,7 +59,9 @@ type Frame struct {
 }
 
 // Pipe is one direction of a tapped in-memory stream. Writes never block
-// (unbounded buffer); a Read never crosses a frame boundary.
+// (unbounded buffer) unless the harness stalls them (StallWrites); a Read never
+// crosses a frame boundary and hands out nothing while reads are held
+// (HoldReads).
 type Pipe struct {
 	Name     string
 	From, To int
@@ -77,6 +79,10 @@ type Pipe struct {
 	sink      bool
 	maxRead   int
 	ops       int64
+	// gates (harness controlled, never time based)
+	holdR    bool // reads are held: buffered frames are not handed out (link latency)
+	stallW   bool // writes are stalled: Write blocks (a transport whose send window is full)
+	wblocked int  // writers currently blocked at the stall gate
 }
 
 // NewPipe builds a pipe.
@@ -129,8 +135,18 @@ func (p *Pipe) Write(b []byte) (int, error) {
 		p.mu.Unlock()
 		return 0, io.ErrClosedPipe
 	}
-	f.Seq = len(p.frames)
+	// Tx is taken at Write entry: that is when the node decided to send.
 	f.Tx = p.clk.Tick()
+	for p.stallW && !p.closed {
+		p.wblocked++
+		p.cond.Wait()
+		p.wblocked--
+	}
+	if p.closed {
+		p.mu.Unlock()
+		return 0, io.ErrClosedPipe
+	}
+	f.Seq = len(p.frames)
 	p.frames = append(p.frames, f)
 	p.ops++
 	p.cond.Broadcast()
@@ -145,7 +161,7 @@ func (p *Pipe) Read(b []byte) (int, error) {
 	// the (single, sequential) reader came back: everything delivered so far
 	// has been processed by it.
 	p.processed = p.delivered
-	for p.head == len(p.frames) && !p.closed {
+	for (p.head == len(p.frames) || p.holdR) && !p.closed {
 		p.parked = true
 		p.cond.Wait()
 	}
@@ -195,8 +211,36 @@ func (p *Pipe) Idle() bool {
 	if p.closed || p.sink {
 		return true
 	}
-	return p.head == len(p.frames) && p.parked
+	return p.parked && (p.head == len(p.frames) || p.holdR)
 }
+
+// HoldReads closes (on) or opens the read gate: while it is closed the reader
+// is handed nothing, buffered frames stay in flight (a slow link) and the
+// pipe counts as idle once its reader is parked. Writers are not affected.
+func (p *Pipe) HoldReads(on bool) {
+	p.mu.Lock()
+	p.holdR = on
+	p.ops++
+	p.cond.Broadcast()
+	p.mu.Unlock()
+}
+
+// StallWrites closes (on) or opens the write gate: while it is closed every
+// Write blocks until the gate is opened or the pipe is closed (a transport
+// that does not drain: back-pressure reaches the writer).
+func (p *Pipe) StallWrites(on bool) {
+	p.mu.Lock()
+	p.stallW = on
+	p.ops++
+	p.cond.Broadcast()
+	p.mu.Unlock()
+}
+
+// WritersBlocked returns how many writers are blocked at the write gate.
+func (p *Pipe) WritersBlocked() int { p.mu.Lock(); defer p.mu.Unlock(); return p.wblocked }
+
+// Pending returns the number of frames written but not yet completely read.
+func (p *Pipe) Pending() int { p.mu.Lock(); defer p.mu.Unlock(); return len(p.frames) - p.head }
 
 // Ops is a counter that changes with every write, read and close.
 func (p *Pipe) Ops() int64 { p.mu.Lock(); defer p.mu.Unlock(); return p.ops }
